@@ -108,8 +108,20 @@ Record scase := mk_scase {
   s_params : params;
   s_n : N;                            (* iterations run *)
   s_until0 : N;
-  s_returns : list (N * N * float)    (* (LastReturnedToBase, countdown installed, step installed) *)
+  s_returns : list (N * N * float * N)
+    (* run-length encoded observations: (LastReturnedToBase, countdown installed, step installed, r) stands
+       for r consecutive returns, each one countdown after the previous, installing the same countdown
+       and step (the steady state step = minimum) *)
 }.
+
+Fixpoint expand_rle (it c : N) (f : float) (reps : nat) : list (N * N * float) :=
+  match reps with
+  | O => []
+  | Datatypes.S r => (it, c, f) :: expand_rle (it + c)%N c f r
+  end.
+
+Definition expand_returns (l : list (N * N * float * N)) : list (N * N * float) :=
+  flat_map (fun x => match x with (it, c, f, r) => expand_rle it c f (N.to_nat r) end) l.
 
 Fixpoint returns_eqb (a b : list (N * N * float)) : bool :=
   match a, b with
@@ -124,7 +136,7 @@ Definition check_scase (c : scase) : bool :=
   | Ok us =>
       N.eqb (fst us) (s_until0 c) &&
       match sched_returns (s_params c) (N.to_nat (s_n c)) 1%N us with
-      | Ok l => returns_eqb l (s_returns c)
+      | Ok l => returns_eqb l (expand_returns (s_returns c))
       | Panic => false
       end
   | Panic => false
